@@ -11,7 +11,7 @@ import (
 func init() {
 	register(&propDef{
 		ID:          "C11",
-		Explanation: "Decides, for templ.ComponentHandler (go/cfg dominance and reachability, object identity through go/types): R1 the buffered path renders into the pooled byte buffer, never into the ResponseWriter; R2 every effect on the ResponseWriter (Header, WriteHeader, Write, http.Error, delegation to the error handler) is dominated by the Render call; R3 the effects inside the `err != nil` branch are the only ones reachable when rendering failed — that branch returns on every path and no success effect is reachable from an error effect; R4 the success body is Bytes() of that same buffer, written exactly once, after the status; R5 ServeHTTP takes the buffered path unless StreamResponse is set; the pooled buffer is released only by a defer (no use after release). R6 no function of templ or templ/runtime uses the memory of a pooled buffer after the buffer went back to the pool (a slice from Bytes() returned past a deferred release, or used after a direct release): the response body would be overwritten by another request's render. NOT decided: what a configured error handler itself writes.",
+		Explanation: "Decides, for templ.ComponentHandler (go/cfg dominance and reachability, object identity through go/types): R1 the buffered path renders into the pooled byte buffer, never into the ResponseWriter; R2 every effect on the ResponseWriter (Header, WriteHeader, Write, http.Error, delegation to the error handler) is dominated by the Render call; R3 the effects inside the `err != nil` branch are the only ones reachable when rendering failed — that branch returns on every path and no success effect is reachable from an error effect; R4 the success body is Bytes() of that same buffer, written exactly once, after the status; R5 ServeHTTP takes the buffered path unless StreamResponse is set; the pooled buffer is released only by a defer (no use after release). R6 no function of templ or templ/runtime uses the memory of a pooled buffer after the buffer went back to the pool (a slice from Bytes() returned past a deferred release, or used after a direct release): the response body would be overwritten by another request's render. R7 (= C10.R6) every object that goes into the buffer pools is reset or freshly empty, so a response never starts with bytes of an earlier (failed) render. R8 the ErrorHandler field is assigned the option's parameter itself (or a wrapper whose every return calls it). NOT decided: what a configured error handler itself writes.",
 		Assumptions: []string{"Component.Render writes only to the writer it is given"},
 		Trusted:     []string{"go/types", "x/tools go/packages, go/cfg"},
 		Run:         runC11,
@@ -443,6 +443,8 @@ func runC11(c *Ctx) {
 	}
 	c.floor("C11.R3", 4)
 	pooledBufferLifetime(c, "C11.R6")
+	poolDiscipline(c, "C11.R7")
+	errorHandlerStoredAsGiven(c, "C11.R8")
 }
 
 // blockAlwaysReturns: every path through the block ends in a return (if/else chains handled structurally).
@@ -464,4 +466,74 @@ func blockAlwaysReturns(b *ast.BlockStmt) bool {
 		return blockAlwaysReturns(last.Body) && blockAlwaysReturns(eb)
 	}
 	return false
+}
+
+// errorHandlerStoredAsGiven: C11.R8 — the error handler a user configures is the one that answers a failed render. The
+// field is assigned the option's parameter itself, or a wrapper every return of which is a call of that parameter; a
+// wrapper that can return some other handler (a no-op for "cancelled" errors, say) answers a failed render with an
+// empty 200.
+func errorHandlerStoredAsGiven(c *Ctx, rule string) {
+	p := c.pkg(".")
+	info := p.TypesInfo
+	n := 0
+	for _, fd := range allFuncDecls(p) {
+		ast.Inspect(fd.Body, func(x ast.Node) bool {
+			as, ok := x.(*ast.AssignStmt)
+			if !ok || len(as.Lhs) != len(as.Rhs) {
+				return true
+			}
+			for i, l := range as.Lhs {
+				se, ok := l.(*ast.SelectorExpr)
+				if !ok || se.Sel.Name != "ErrorHandler" {
+					continue
+				}
+				if f := fieldOf(info, se); f == nil {
+					continue
+				}
+				n++
+				rhs := ast.Unparen(as.Rhs[i])
+				why := ""
+				switch r := rhs.(type) {
+				case *ast.Ident:
+					if r.Name != "nil" {
+						if v, ok := info.ObjectOf(r).(*types.Var); !ok || v.IsField() {
+							why = "it is assigned " + r.Name + ", which is not the option's parameter"
+						}
+					}
+				case *ast.FuncLit:
+					ast.Inspect(r.Body, func(y ast.Node) bool {
+						if inner, ok := y.(*ast.FuncLit); ok && inner != r {
+							return false
+						}
+						ret, ok := y.(*ast.ReturnStmt)
+						if !ok || len(ret.Results) != 1 {
+							return true
+						}
+						call, ok := ast.Unparen(ret.Results[0]).(*ast.CallExpr)
+						good := false
+						if ok {
+							if id, ok := ast.Unparen(call.Fun).(*ast.Ident); ok {
+								if v, ok := info.ObjectOf(id).(*types.Var); ok && !v.IsField() {
+									if _, isSig := v.Type().Underlying().(*types.Signature); isSig {
+										good = true
+									}
+								}
+							}
+						}
+						if !good {
+							why = "the wrapper installed as the error handler can return " + types.ExprString(ret.Results[0]) + " (" + c.pos(ret.Pos()) + ") instead of the configured handler's response"
+						}
+						return true
+					})
+				default:
+					why = "it is assigned " + types.ExprString(rhs)
+				}
+				c.check(why == "", rule, funcKey(p, fd)+"|error-handler-stored-as-given", c.pos(as.Pos()), "the configured error handler is stored unchanged (or wrapped by a function that always calls it)",
+					fd.Name.Name+": "+why+": when rendering fails with such an error the client, who is still connected, gets an implicit 200 with an empty body and the configured handler never runs")
+			}
+			return true
+		})
+	}
+	c.count("error_handler_assignments", n)
+	c.floor(rule, 1)
 }
